@@ -11,6 +11,7 @@
 (* that a TLA+ source file cannot spell portably:                          *)
 (*     NUL  the null byte                                                  *)
 (*     W2   a two-byte character (U+00E9),  W3  a three-byte one (U+3042)  *)
+(*     W4   a four-byte character (U+1F600)                                *)
 (*     BAD  a byte that occurs in no character (0xFF)                      *)
 (*     CUT  the first byte of a two-byte character without the second one  *)
 (*          (0xC3)                                                         *)
